@@ -42,7 +42,12 @@ bustoken() {
 # tier B: test binary compiled with go1.26.8 (testing/synctest bubbles)
 build_b() {
   cp /repo/go.sum h/go.sum 2>/dev/null
-  (cd h && go1.26.8 test -c -vet=off -o ../bin/verifb.test ./tb) || { echo "HARNESS-ERROR: tier-B build failed (does /repo still compile?)"; exit 3; }
+  # client/manager.go with its select statement put under explorer control (virtual file, /repo untouched)
+  mkdir -p bin/vsel
+  (cd h && go build -o ../bin/vselgen ./cmd/vselgen) || { echo "HARNESS-ERROR: vselgen build failed"; exit 3; }
+  bin/vselgen /repo/client/manager.go bin/vsel/manager.go.txt > bin/vsel/gen.log 2>&1 || { cat bin/vsel/gen.log; echo "HARNESS-ERROR: vselgen failed (does /repo still compile?)"; exit 3; }
+  printf '{"Replace":{"/repo/client/manager.go":"%s/bin/vsel/manager.go.txt"}}' "$VERIF_ROOT" > bin/ov_b.json
+  (cd h && go1.26.8 test -c -vet=off -overlay ../bin/ov_b.json -o ../bin/verifb.test ./tb) || { echo "HARNESS-ERROR: tier-B build failed (does /repo still compile?)"; exit 3; }
 }
 run_b() { VERIF_TIER="$tier" exec bin/verifb.test -test.run "^Test$1\$" -test.timeout 0; }
 
